@@ -264,6 +264,21 @@ def one_case(arg):
                     out["viol"].append(("C13/shallow-not-refused/panic-instead-of-refusal/" + name, {"rc": r.rc, "stderr": r.err[:300].decode("utf-8", "replace")}))
                 elif not r.err.strip():
                     out["viol"].append(("C13/shallow-refused-without-message/" + name, {"rc": r.rc}))
+            # the child that answers where the `shallow` file is takes its time (cold cache, network file system): the answer
+            # must still be waited for
+            for name, cwd in list(targets)[:3]:
+                for extra in ([], [m.commits[-1].oid + "^{tree}"]):
+                    plan = R.make_plan(os.path.join(d, "slowplan-%d" % out["shallow"]),
+                                       [{"sig": "rev-parse --git-path", "ord": -1, "mode": "delay", "pre_ms": rng.choice([700, 1200]),
+                                         "exit_ms": rng.choice([0, 300]), "max_ms": 1600}])
+                    r = R.sizer(sz, cwd, argv + extra, shimdir=shimdir, plan=plan, tmpdir=d)
+                    out["evals"] += 1
+                    out["shallow"] += 1
+                    nm = name + "+slow-git-path-child" + ("+tree-root" if extra else "")
+                    if r.rc == 0 or report_shaped(r.out):
+                        out["viol"].append(("C13/shallow-not-refused/" + nm, {"rc": r.rc, "out": r.out[:200].decode("utf-8", "replace")}))
+                    elif b"goroutine " in r.err and b"panic" in r.err:
+                        out["viol"].append(("C13/shallow-not-refused/panic-instead-of-refusal/" + nm, {"rc": r.rc, "stderr": r.err[:300].decode("utf-8", "replace")}))
             for name, cwd in targets:
                 plan = None
                 if name.endswith("+git-path-child-fails"):
